@@ -487,7 +487,8 @@ def _build_branch(node, x, out, sibling=False, with_alt=True, alt_first=False):
         # pool object whose value is x.a
         from entity_query_language import an, entity, let, or_, HasType
         m = let(M, POOL)
-        Add(out, Out(tag=tag, src=x, link=an(entity(m, m.v == x.a, or_(HasType(m, M2), m.w > 0)))))
+        # (the last field reads a property that may raise when armed: user code failing while the VALUE of a conclusion is built)
+        Add(out, Out(tag=tag, src=x, link=an(entity(m, m.v == x.a, or_(HasType(m, M2), m.w > 0))), world=x.fa))
     else:
         Add(out, Out(tag, x) if POSITIONAL_CONCLUSIONS[0] else Out(tag=tag, src=x))
 
@@ -571,7 +572,7 @@ def run(case, objs, caching, times=1, links=None):
                     dq = _infer(_entity(OutSub(tag=t_, src=x_), x_.a > -1))
                 list(dq.evaluate())
         q = build(case, objs, links)
-        if case.get("boom_at") and "'fa'" in repr(case["tree"]):
+        if case.get("boom_at") and ("'fa'" in repr(case["tree"]) or CONCLUSION_SUBQUERY[0]):
             # an evaluation in which user code (a property read by a branch condition) raises; the same tree is evaluated again
             from .. import data as _D
             _D.arm_fault(case["boom_at"])
@@ -751,7 +752,7 @@ def check_case(case, ctx):
     ctx.cls("cls:caching_on" if case["caching"] else "cls:caching_off")
     if case.get("positional"):
         ctx.cls("cls:conclusions_spelled_positionally")
-    if case.get("boom_at") and "'fa'" in repr(case["tree"]):
+    if case.get("boom_at") and ("'fa'" in repr(case["tree"]) or (case.get("concl_subq") and not case.get("join"))):
         ctx.cls("cls:preceded_by_an_evaluation_in_which_user_code_raised")
     if case.get("decoy_rule") and not case.get("join"):
         ctx.cls("cls:earlier_rule_concluded_a_subclass_for_the_same_objects")
